@@ -353,6 +353,11 @@ var shMsgOptText = map[string][2]string{
 	"description":        {"(j5.ext.v1.message)", "description:\"text\""},
 	"psm":                {"(j5.ext.v1.psm)", "entity_name:\"thing\""},
 	"psm_part":           {"(j5.ext.v1.psm)", "entity_name:\"thing\" entity_part:ENTITY_PART_KEYS"},
+	"psm_part_state":     {"(j5.ext.v1.psm)", "entity_name:\"thing\" entity_part:ENTITY_PART_STATE"},
+	"psm_part_event":     {"(j5.ext.v1.psm)", "entity_name:\"thing\" entity_part:ENTITY_PART_EVENT"},
+	"psm_part_data":      {"(j5.ext.v1.psm)", "entity_name:\"thing\" entity_part:ENTITY_PART_DATA"},
+	"psm_part_refs":      {"(j5.ext.v1.psm)", "entity_name:\"thing\" entity_part:ENTITY_PART_REFERENCES"},
+	"psm_part_derived":   {"(j5.ext.v1.psm)", "entity_name:\"thing\" entity_part:ENTITY_PART_DERIVED"},
 	"list_request":       {"(j5.list.v1.list_request)", "default_sort:\"f1\""},
 }
 
